@@ -131,8 +131,14 @@ class World:
         return [e for e in self.entries if typ is None or e.typ == typ]
 
     def pick(self, n, typ=None):
+        """operand selection: the upper part of the index range prefers the most recent objects, which makes
+        derivation chains (results of results) common instead of exceptional"""
         xs = self.live(typ)
-        return xs[n % len(xs)] if xs else None
+        if not xs:
+            return None
+        if n >= 24:
+            return xs[-1 - (n % min(3, len(xs)))]
+        return xs[n % len(xs)]
 
     def by_id(self, id_):
         for e in self.entries:
